@@ -1,6 +1,8 @@
 """C10 - Descriptor-driven multi-extent assembly and size accounting."""
 from __future__ import annotations
 
+import struct
+
 import os
 from pathlib import Path
 
@@ -57,6 +59,20 @@ def _extent(rng, kind: str, tag: int):
     if kind in ("FLAT", "VMFS"):
         n = rng.choice([1, 2, 15, 16, 17, rng.randrange(1, 600)])
         sf, layer, meta = w.build_flat(rng, nsectors=n, tag=tag)
+        if rng.random() < 0.25:
+            # guest data that itself starts like a sparse extent (a VMDK stored raw inside the guest): the descriptor line says
+            # FLAT, so it is served as plain bytes
+            inner = rng.choice(["kdmv", "kdmv-junk", "cowd", "sesparse"])
+            if inner == "kdmv":
+                hdr = w.kdmv_header(version=1, flags=3, capacity=rng.randrange(1, 5000), grain=8, desc_off=0, desc_size=0, ngte=512, rgd_off=0, gd_off=1, overhead=2)
+            elif inner == "kdmv-junk":
+                hdr = b"KDMV" + bytes(rng.randrange(256) for _ in range(508))
+            elif inner == "cowd":
+                hdr = (b"COWD" + struct.pack("<IIIIIII", 1, 3, rng.randrange(1, 5000), 8, 4, 1, 100)).ljust(512, b"\0")
+            else:
+                hdr = struct.pack("<QQQQ", 0xCAFEBABE, 0x200000001, rng.randrange(8, 5000), 8).ljust(512, b"\0")
+            layer.override[0] = hdr[:512]
+            layer.looks_sparse = True
         if rng.random() < 0.1:
             sf.size += SECTOR * rng.randrange(1, 4)  # backing file longer than the extent's sector range
     elif kind == "SPARSE":
@@ -144,7 +160,11 @@ def run(case: dict, ctx) -> dict:
             fhs = [open(d / f, "rb") for f in files]
             handles += fhs
             # explicit lists carry no sizes for flat extents: a longer backing file would legitimately be used in full
-            o = call(VMDK, fhs if all((d / f).stat().st_size == c * SECTOR or k not in ("FLAT", "VMFS") for f, c, k in zip(files, caps, kinds)) else dpath)
+            # ... and without a descriptor the only way to tell a sparse extent from raw data is its first bytes: raw data that
+            # starts with a sparse magic is legitimately taken for a sparse extent there
+            plain_list_ok = all((d / f).stat().st_size == c * SECTOR or k not in ("FLAT", "VMFS") for f, c, k in zip(files, caps, kinds))
+            plain_list_ok = plain_list_ok and not any(getattr(p_.layers[0], "looks_sparse", False) for p_ in parts)
+            o = call(VMDK, fhs if plain_list_ok else dpath)
         try:
             if not o.ok:
                 res["viol"].append({"what": f"open failed on a well-formed descriptor: {o.brief()}", "mech": MECH,
